@@ -231,7 +231,9 @@ func project(v cty.Value) J {
 	case ty == cty.String:
 		s := uv.AsString()
 		out["v"] = J{"s": runes(s)}
-		out["nfc"] = norm.NFC.IsNormalString(s)
+		if !norm.NFC.IsNormalString(s) {
+			out["bad"] = "string not NFC-normalized"
+		}
 	case ty.IsListType() || ty.IsTupleType() || ty.IsSetType():
 		elems := []any{}
 		n := 0
@@ -267,7 +269,9 @@ func project(v cty.Value) J {
 			}
 		}
 		out["v"] = J{"m": m}
-		out["nfc"] = nfc
+		if !nfc {
+			out["bad"] = "key or attribute name not NFC-normalized"
+		}
 	case ty.IsCapsuleType():
 		out["v"] = J{"c": fmt.Sprintf("%v", reflect.ValueOf(uv.EncapsulatedValue()).Elem().Interface())}
 	default:
